@@ -26,6 +26,36 @@ def render(c):
     return "C04Case %s %s %s %s" % (r_expr(r["e"]), r_expr(r["e2"]), doms, r_list([r_obs(o) for o in r["obs"]]))
 
 
+INT_COLS = {0, 1, 2, 3, 4, 5}
+
+
+def remap0(e, ci):
+    """the expression with column ci renamed to column 0 (single-column row of the region validator)"""
+    if isinstance(e, list):
+        if len(e) == 3 and e[0] == "col":
+            return ["col", 0, 0] if e[2] == ci else e
+        return [remap0(x, ci) for x in e]
+    return e
+
+
+def int_lits(e, acc):
+    if isinstance(e, list):
+        if len(e) == 2 and e[0] == "lit":
+            if isinstance(e[1], int) and not isinstance(e[1], bool):
+                acc.add(e[1])
+        else:
+            for x in e:
+                int_lits(x, acc)
+    return acc
+
+
+def render_region(c):
+    ci = c["used"][0]
+    r = c["ref"]
+    cs = sorted(int_lits(r["e"], set()) | int_lits(r["e2"], set()))
+    return "(%s, %s, %s)" % (r_expr(remap0(r["e"], ci)), r_expr(remap0(r["e2"], ci)), vlib.zlist(cs))
+
+
 def brief(c):
     return {k: c.get(k) for k in ("id", "stream", "mode", "e", "e2", "guar", "row", "why", "key") if k in c}
 
@@ -52,8 +82,9 @@ def run(pid, tier, seed, replay):
     fails = [c for c in cases if not c["ok"]]
     by_key = collections.Counter(c.get("key", "?") for c in fails)
     for c in fails:
+        # an expression may contain several known defect classes: it is filed under the first one
         ck.fail_input("simplification changed the value: " + (c.get("why") or c.get("panic") or ""), brief(c),
-                      key="C04-" + c.get("key", "?"))
+                      key="C04-" + c.get("key", "?").split("+")[0])
     ck.log("oracle: %d failing cases by key: %s" % (len(fails), dict(by_key)))
 
     # ---- correspondence on the RefSQL fragment
@@ -103,6 +134,19 @@ def run(pid, tier, seed, replay):
                 engine_ref += 1
                 ck.problem("tie", "reference evaluator and engine disagree on the value of the ORIGINAL expression: %s" % str(brief(c))[:1500])
 
+    # ---- region abstraction: pairs over ONE integer column whose atoms compare it with literals are decided for ALL
+    #      values of the column (C04_equiv_regions_sound), not only on the small domain
+    reg = [c for c in kept if c["ok"] and c.get("changed") and len(c.get("used", [])) == 1 and c["used"][0] in INT_COLS and not c.get("guar")]
+    proved = 0
+    if reg:
+        rbad, rlog, rdt = vlib.coq_eval_cases(PRE, "(expr * expr * list Z)",
+                                              "(fun c => match c with (e, e2, cs) => equiv_regions e e2 cs end)",
+                                              [render_region(c) for c in reg], shard=150, tag="c04r", timeout=900)
+        if rlog:
+            ck.problem("tie", "coq evaluation (regions) failed: " + rlog[-1500:])
+        proved = len(reg) - len([b for b in rbad if isinstance(b, int)])
+        ck.log("region validator: %d single-integer-column pairs, %d proved equivalent for all values (%.1fs)" % (len(reg), proved, rdt))
+
     # ---- coverage
     done = [c for c in cases if "skip" not in c and "simp_err" not in c and "panic" not in c]
     changed = [c for c in done if c.get("changed")]
@@ -129,6 +173,8 @@ def run(pid, tier, seed, replay):
         "oracle_failures_by_key": dict(by_key),
         "traces_validated_against_impl": len(kept),
         "ref_pairs_equivalent_strict": len(kept) - len(bad),
+        "pairs_proved_for_all_values_by_region_validator": proved,
+        "pairs_offered_to_region_validator": len(reg),
         "ref_pairs_simplified_errs_only_in_reference": ref_lenient,
         "ref_pairs_separated": ref_diff,
         "ref_engine_value_disagreements": engine_ref,
